@@ -271,7 +271,55 @@ func (c *cmp) compare(x *schema.X, e *yang.Entry) {
 					c.bad(x, "type-enum", "%s: enum members %v, reference %v", p, en, we)
 				}
 			}
+			mapsEqual := func(a, b map[string]int64) bool {
+				if len(a) != len(b) {
+					return false
+				}
+				for k, v := range a {
+					if w, ok := b[k]; !ok || w != v {
+						return false
+					}
+				}
+				return true
+			}
+			if x.T.EnumMap != nil || t.Enum != nil {
+				var got map[string]int64
+				if t.Enum != nil {
+					got = t.Enum.NameMap()
+					for v, n := range t.Enum.ValueMap() {
+						if w, ok := got[n]; !ok || w != v {
+							c.bad(x, "type-enum-views", "%s: value %d maps to %q, which maps to %d", p, v, n, w)
+						}
+					}
+				}
+				if !mapsEqual(got, x.T.EnumMap) {
+					c.bad(x, "type-enum-values", "%s: enum values %v, reference %v", p, got, x.T.EnumMap)
+				}
+			}
+			if x.T.BitMap != nil || t.Bit != nil {
+				var got map[string]int64
+				if t.Bit != nil {
+					got = t.Bit.NameMap()
+				}
+				if !mapsEqual(got, x.T.BitMap) {
+					c.bad(x, "type-bits", "%s: bit positions %v, reference %v", p, got, x.T.BitMap)
+				}
+			}
+			if x.T.Kind == "string" {
+				wl := x.T.Length
+				if wl == "" {
+					wl = "0..18446744073709551615"
+				}
+				if gl := t.Length.String(); gl != wl && !(x.T.Length == "" && len(t.Length) == 0) {
+					c.bad(x, "type-length", "%s: length %s, reference %s", p, gl, wl)
+				}
+				if x.T.Length != "" {
+					c.Special["length"]++
+				}
+			}
 			switch {
+			case x.T.BitMap != nil:
+				c.Special["bits"]++
 			case len(x.T.Enums) > 0:
 				c.Special["enumeration"]++
 			case x.T.Path != "":
